@@ -267,11 +267,22 @@ def make_session(M, ch, rng, sysd, mats_shared, sid, st, reuse=None, pre_use=Fal
     if ic == 1:
         s.d0 = rng.standard_normal(n) * 1e-2
         s.v0 = rng.standard_normal(n) * 1e-1
-        if ch.flip(1, 3, "only_d0"):
+        z = ch.weighted([6, 1, 1], "ic_exact_zeros")  # given, but exactly zero: d0 / v0
+        if z == 1:
+            s.d0[:] = 0.0
+        elif z == 2:
+            s.v0[:] = 0.0
+        only = ch.weighted([4, 2, 2], "only_d0")  # both / displacement only / velocity only
+        if only == 1:
             s.v0 = None
+        elif only == 2:
+            s.d0 = None  # a velocity-only start (e.g. a structure released with an initial velocity)
+            st.fault("ic_velocity_only")
     elif ic == 2:
         s.static_ic = True
         st.fault("static_ic")
+        if ch.flip(1, 3, "static_ic_with_v0"):
+            s.v0 = rng.standard_normal(n) * 1e-1  # static displacement, given velocity
     s.ic = ["zero", "d0v0", "static_ic"][ic]
     # the system under test shares its matrix objects with other sessions;
     # the reference is built from pristine private copies
@@ -777,5 +788,5 @@ EXPECTED_FAULTS = [
     "redo_same_force", "redo_new_force", "jump_back_1", "jump_back_far", "addon", "addon_then_advance", "addon_then_redo",
     "redo_then_advance", "addon_order0", "buffer_reuse", "closed_loop_force", "two_sessions_interleaved", "nt_1", "rf_only",
     "rb_only", "static_ic", "complex_coefficients", "f2x_probe", "addon_twice", "instance_reused", "same_instance_tsolve",
-    "same_instance_fsolve", "long_session", "force_int", "resend_stored_force", "deep_run", "f2x_phi_buffer_reused", "F0_buffer_reused", "sent_view_of_force_record",
+    "same_instance_fsolve", "long_session", "force_int", "resend_stored_force", "deep_run", "f2x_phi_buffer_reused", "F0_buffer_reused", "sent_view_of_force_record", "ic_velocity_only",
 ]
